@@ -104,9 +104,10 @@ def call(op, bundle):
     if f == "obtain_vertices":
         return dsw.obtain_vertices(accessor=acc)
     if f == "obtain_leaf_vertices":
+        root = start if op.get("vertex") is None else op["vertex"]
         if op["via_map"]:
-            return dsw.obtain_leaf_vertices(vertex_index=start, depth=op["depth"], latter_map=bundle["latter_map"])
-        return dsw.obtain_leaf_vertices(vertex_index=start, depth=op["depth"], accessor=acc)
+            return dsw.obtain_leaf_vertices(vertex_index=root, depth=op["depth"], latter_map=bundle["latter_map"])
+        return dsw.obtain_leaf_vertices(vertex_index=root, depth=op["depth"], accessor=acc)
     if f == "get_complete_accessor":
         return dsw.get_complete_accessor(observed_length=k, verbose=verbose)
     if f == "find_vertices":
